@@ -1,7 +1,7 @@
 // REPLAY for property C05, harness k_arm_decode_litlen (unit K-arms, engine kani)
 // Failed obligations:
-//   OBL:arms.fast_tier_failure_state_is_recorded_so_failure_is_sticky [C04 C05]  at miniz_oxide/src/inflate/core.rs:3955:53 in function inflate::core::verif_inflate_core::k_arm_decode_litlen
-//   OBL:arms.fast_tier_done_continues_in_reported_state [C03]  at miniz_oxide/src/inflate/core.rs:3954:36 in function inflate::core::verif_inflate_core::k_arm_decode_litlen
+//   OBL:arms.fast_tier_failure_state_is_recorded_so_failure_is_sticky [C04 C05]  at miniz_oxide/src/inflate/core.rs:3956:53 in function inflate::core::verif_inflate_core::k_arm_decode_litlen
+//   OBL:arms.fast_tier_done_continues_in_reported_state [C03]  at miniz_oxide/src/inflate/core.rs:3955:36 in function inflate::core::verif_inflate_core::k_arm_decode_litlen
 // no-failing-input-found: the verifier reported the failed obligation without a concrete model.
 // Verifier output (tail):
 //   	 - Description: "dereference failure: dead object"
@@ -54,12 +54,12 @@
 //    ** 2 of 2 cover properties satisfied
 //   
 //   Failed Checks: "OBL:arms.fast_tier_failure_state_is_recorded_so_failure_is_sticky [C04 C05]"
-//    File: "miniz_oxide/src/inflate/core.rs", line 3955, in inflate::core::verif_inflate_core::k_arm_decode_litlen
+//    File: "miniz_oxide/src/inflate/core.rs", line 3956, in inflate::core::verif_inflate_core::k_arm_decode_litlen
 //   Failed Checks: "OBL:arms.fast_tier_done_continues_in_reported_state [C03]"
-//    File: "miniz_oxide/src/inflate/core.rs", line 3954, in inflate::core::verif_inflate_core::k_arm_decode_litlen
+//    File: "miniz_oxide/src/inflate/core.rs", line 3955, in inflate::core::verif_inflate_core::k_arm_decode_litlen
 //   
 //   VERIFICATION:- FAILED
-//   Verification Time: 6.620987s
+//   Verification Time: 15.677578s
 //   
 //   Manual Harness Summary:
 //   Verification failed for - inflate::core::verif_inflate_core::k_arm_decode_litlen
